@@ -189,7 +189,8 @@ def _map_vars(
                 tgt = varmap[name] + tilde + alignment
         newbranches.append((role, tgt))
 
-    return (varmap[var], newbranches)
+    # the empty node () has no variable and is not in the map
+    return (varmap.get(var, var), newbranches)
 
 
 def is_atomic(x: Any) -> bool:
